@@ -81,7 +81,7 @@ func c11sDraw(rt *rapid.T) *c11sCase {
 		return append(out, specs[pos:]...)
 	}
 	cs := &c11sCase{}
-	switch rapid.IntRange(0, 4).Draw(rt, "shape") {
+	switch rapid.IntRange(0, 6).Draw(rt, "shape") {
 	case 4:
 		// two changes: the first introduces a package (import and use), the
 		// second has that import on a context or '-' line and rewrites
@@ -102,6 +102,41 @@ func c11sDraw(rt *rapid.T) *c11sCase {
 			cs.Expected = expect()
 		}
 		cs.File = "package foo\n\n" + c11sImports(by, grouped) + uses() + "func sites() {\n\tlegacyDo(1)\n\totherDo(2)\n}\n"
+	case 5:
+		// two changes: one of them has imports on its '-' and '+' lines but
+		// its code occurs only where the '+' code cannot stand (a declared
+		// name, for a selector): it rewrites nothing, so its imports are
+		// not carried out either; the other change rewrites the file.
+		first := rapid.Bool().Draw(rt, "unplaceableFirst")
+		oldUsed := rapid.Bool().Draw(rt, "oldUsed")
+		cs.Shape = fmt.Sprintf("imports-of-a-change-that-rewrites-nothing:first=%v:old-used=%v", first, oldUsed)
+		a := "@@\n@@\n-import \"example.com/lib/oldp\"\n+import \"example.com/lib/newp\"\n\n-Timeout\n+newp.Timeout\n\n"
+		b := "@@\nvar x expression\n@@\n-legacyDo(x)\n+localDo(x)\n\n"
+		if first {
+			cs.Patch = a + b
+		} else {
+			cs.Patch = b + a
+		}
+		use := ""
+		if oldUsed {
+			use = "\toldp.Keep()\n"
+		}
+		cs.File = "package foo\n\n" + c11sImports(at(by, `"example.com/lib/oldp"`), grouped) + uses() + "var Timeout = 3\n\nfunc sites() {\n\tlegacyDo(1)\n" + use + "}\n"
+		cs.Expected = expect(`"example.com/lib/oldp"`)
+	case 6:
+		// a blank or dot import on a context line: it is part of the file
+		// before and after the change, although nothing refers to it by
+		// name (written literally, or through an identifier metavariable)
+		name := rapid.SampledFrom([]string{"_", "."}).Draw(rt, "blankOrDot")
+		viaMeta := rapid.Bool().Draw(rt, "viaMetavariable")
+		cs.Shape = fmt.Sprintf("context-import-named:%s:via-metavariable=%v", name, viaMeta)
+		if viaMeta {
+			cs.Patch = "@@\nvar n identifier\nvar x expression\n@@\n import n \"example.com/lib/oldp\"\n\n-legacyDo(x)\n+localDo(x)\n"
+		} else {
+			cs.Patch = "@@\nvar x expression\n@@\n import " + name + " \"example.com/lib/oldp\"\n\n-legacyDo(x)\n+localDo(x)\n"
+		}
+		cs.File = "package foo\n\n" + c11sImports(at(by, name+` "example.com/lib/oldp"`), grouped) + uses() + "func sites() {\n\tlegacyDo(1)\n}\n"
+		cs.Expected = expect(name + ` "example.com/lib/oldp"`)
 	case 0:
 		// the path of a '+' import is already imported, but under a name the
 		// patch does not mention: that import is a bystander, the '+' import
